@@ -57,13 +57,14 @@ var HTMLRawTextElements = set(`script style textarea title iframe noembed nofram
 
 // HTML Living Standard §15 (Rendering): elements whose boundary makes adjacent
 // inter-element whitespace insignificant for rendering.
-//   §15.3.3 flow content, §15.3.7 sections/headings, §15.3.8 lists: display block / list-item
-//   §15.3.10 tables: display table, table-caption, table-*-group, table-row, table-cell, table-column(-group)
-//   §15.3.1 hidden elements: display none
-//   §15.3.2 the page: html, body
-//   §15.5 details (block), summary (list-item / block), fieldset (block), legend (block)
-//   §15.5.16/17 select: option / optgroup are rendered by the list box, not as flow text
-//   br: forced line break; frameset/frame: not flow content
+//
+//	§15.3.3 flow content, §15.3.7 sections/headings, §15.3.8 lists: display block / list-item
+//	§15.3.10 tables: display table, table-caption, table-*-group, table-row, table-cell, table-column(-group)
+//	§15.3.1 hidden elements: display none
+//	§15.3.2 the page: html, body
+//	§15.5 details (block), summary (list-item / block), fieldset (block), legend (block)
+//	§15.5.16/17 select: option / optgroup are rendered by the list box, not as flow text
+//	br: forced line break; frameset/frame: not flow content
 var HTMLBlockLike = set(`
  address blockquote center dialog div figure figcaption footer form header hr legend listing main p plaintext pre search xmp
  article aside h1 h2 h3 h4 h5 h6 hgroup nav section
@@ -113,9 +114,12 @@ var XMLPredefinedEntities = map[string]string{"lt": "<", "gt": ">", "amp": "&", 
 // §7.8 preserveAspectRatio default "xMidYMid meet", §6.2 style element type (default is
 // contentStyleType, i.e. "text/css"), XML 1.0 §2.10 xml:space default "default".
 var SVGDefaultAttrValues = map[string]string{
-	"x": "0", "y": "0", "version": "1.1", "baseProfile": "none",
-	"contentScriptType": "application/ecmascript", "contentStyleType": "text/css",
-	"preserveAspectRatio": "xMidYMid meet", "type": "text/css", "xml:space": "default",
+	// "<element> <attribute>": default; "*" = on every element
+	"svg x": "0", "svg y": "0", "svg version": "1.1", "svg baseProfile": "none",
+	"svg contentScriptType": "application/ecmascript", "svg contentStyleType": "text/css",
+	"svg preserveAspectRatio": "xMidYMid meet", "style type": "text/css", "* xml:space": "default",
+	// SVG 1.1 §9.2 rect, §5.7 image, §5.6 use, §23.3 foreignObject: x, y "If the attribute is not specified, the effect is as if a value of 0 were specified."
+	"rect x": "0", "rect y": "0", "image x": "0", "image y": "0", "use x": "0", "use y": "0", "foreignObject x": "0", "foreignObject y": "0",
 }
 
 var SVGDefaultWhy = map[string]string{
